@@ -613,6 +613,28 @@ fn main() {
             for p in small_progs() { for input in &inputs {
                 sweep(&Case { lim: None, det: false, input: input.clone(), env: vec![], prog: p.clone() }, None, &mut out);
             } }
+            // repetitions whose rounds make no call at all (bare repeat of a terminal, as generated for atomic rules) or consume
+            // no input (stack-only bodies), on runs longer than any small limit, followed by readers of what is left
+            {
+                use Prog::*;
+                let s = |x: &str| Str(x.to_string());
+                let bodies: Vec<Prog> = vec![s("a"), Range('a', 'b'), orelse(s("a"), s("b")), Ins("A".into()), Cls(vec![('a', 'z')]), Skip(1), Peek, orelse(s("b"), Rule(2, bx(s("a"))))];
+                let tails: Vec<Prog> = vec![Ok, Eoi, s("b"), Rule(0, bx(Eoi))];
+                let runs = ["", "a", "aaa", "aaaaaa", "aaaaaaaaaaaa", "ababab", "aaab", "aaaaaaab"];
+                for b in &bodies { for t in &tails { for wrap in 0..3 {
+                    let rep = Rep(bx(b.clone()));
+                    let body = match wrap { 0 => then(rep, t.clone()), 1 => then(PushLit("a".into()), then(rep, t.clone())), _ => Rule(1, bx(Atomic(0, bx(then(rep, t.clone()))))) };
+                    for input in runs { sweep(&Case { lim: None, det: false, input: input.to_string(), env: vec![], prog: body.clone() }, None, &mut out); }
+                } } }
+                let pushes = |n: usize, rest: Prog| { let mut p = rest; for i in 0..n { p = then(PushLit(["a", "b", "ab"][i % 3].to_string()), p); } p };
+                let stack_bodies: Vec<Prog> = vec![Drop, Seq(bx(Drop)), then(Look(true, bx(s("a"))), Drop), Opt(bx(Drop)).clone(), orelse(s("b"), Drop)];
+                let readers: Vec<Prog> = vec![Ok, Drop, MPeek, Pop, Slice(0, None, true), then(Drop, Drop)];
+                for n in 0..5 { for b in &stack_bodies { for rd in &readers {
+                    if matches!(b, Opt(_)) { continue; }    // an always-succeeding body without progress never ends
+                    let body = pushes(n, then(Rep(bx(b.clone())), rd.clone()));
+                    for input in ["", "a", "ab", "ba"] { sweep(&Case { lim: None, det: false, input: input.to_string(), env: vec![], prog: body.clone() }, None, &mut out); }
+                } } }
+            }
             let ginputs = small_inputs(&["x", "y", " "], maxlen + 2);
             for gt in SMALL_GRAMMARS.iter() {
                 let g = compile(gt).expect("fixed grammar must compile");
